@@ -259,6 +259,18 @@ func Replay(g *graph.G, walk []int, scratch string, depth int, seed int64, f For
 			w.keys[to.Fkey] = fp
 			w.seen[fp] = true
 			cur = g.Edges[cands[0]].To
+			// whatever the walk does next: the running listener must still serve and advertise the
+			// identity it started with
+			if pins, sfp, err := runner.Advert(w, "script"); err == nil {
+				if sfp != curFP {
+					div(i, "C08", "stable-key", "the key served changed during a run (the cache file was replaced under the running listener)")
+				}
+				for _, p := range pins {
+					if p.FP != sfp {
+						div(i, "C05", "advertised-fingerprint:"+p.Where, "%s shows pin %q, but the certificate presented in handshakes has SPKI hash %q", p.Where, p.FP, sfp)
+					}
+				}
+			}
 		}
 		if len(res.Divs) > 0 {
 			return res, nil
